@@ -137,9 +137,14 @@ def spec_eval(case, ents, errs, model):
         if ents[i] is None:
             if g.get("userFault") and reported:
                 continue            # the user's batch resolver failed as a whole: every member is null with that error
-            if reported:
+            if reported and (cause or any(model["specElemErrors"][k] or model["spec"]["data"][k] is None
+                                          for k in g["indices"] if k != i)):
                 # null with an error - but the failure is another member's, not this representation's
                 bad.append((i, "null-by-other-member", cause or "multi-batch-abort"))
+            elif reported:
+                # null with an error although no other member of its group fails either: nothing but this
+                # representation itself was refused
+                bad.append((i, "wrong-null", None))
             else:
                 bad.append((i, "silent-null", cause))
         else:
@@ -293,9 +298,15 @@ def run(ctx):
     # ---- regenerated facts of the generated federation.go, then the proofs
     first_ok = next((v for v in variants if not isinstance(built[v], Exception)), None)
     ok_extract = first_ok is not None and ctx.extract("FedFacts", arg=os.path.join(vf.GO, "genout", "c20_" + first_ok))
+    # ---- the key-field walk of every entityResolverNameFor<T> and the paths the key arguments are read from, of EVERY
+    #      generated server (statement by statement; Props/C20Walk ties them to the model's key check)
+    ok_dirs = [os.path.join(vf.GO, "genout", "c20_" + v) for v in variants if not isinstance(built[v], Exception)]
+    if ok_dirs:
+        ctx.extract("FedKeyWalk", arg=",".join(ok_dirs))
     # ---- the guards that decide whether an entity type gets resolvers at all (entity.go, buildEntity), regenerated
     ctx.extract("FedResolvable")
-    proved = ctx.prove(props=["GqlgenVerif.Props.C20", "GqlgenVerif.Props.C20Gen", "GqlgenVerif.Props.C20Res"])
+    proved = ctx.prove(props=["GqlgenVerif.Props.C20", "GqlgenVerif.Props.C20Gen", "GqlgenVerif.Props.C20Res",
+                              "GqlgenVerif.Props.C20Walk"])
     if not proved:
         ctx.cov["proof_failure"] = ctx.proof_failure
 
@@ -349,7 +360,7 @@ def run(ctx):
     ctx.cov.update({
         "evaluations": st["total"] + tb_total,
         "distinct_nontrivial": len(st["nontriv"]),
-        "rule": "per variant: fixed directed cases; random interleaved lists (length 0-12, 25% damaged representations, random user faults and delays); duplicate-heavy lists; isolation families (fault-free base + one run per representation x {error, panic, nil, malformed requires}); forced completion orders (reverse, forward, straggler, alternate); failing representations under a slow error presenter; adversarial batch groups (mixed keys, reshaped result slices, nil elements, malformed member/first member); a malformed stream (85% damaged). Non-trivial = distinct (representations, plan) reaching a branch beyond the fault-free single-type path with an error or a plan entry",
+        "rule": "per variant: fixed directed cases; random interleaved lists (length 0-12, 25% damaged representations, random user faults and delays); duplicate-heavy lists; isolation families (fault-free base + one run per representation x {error, panic, nil, malformed requires}); forced completion orders (reverse, forward, straggler, alternate); failing representations under a slow error presenter; adversarial batch groups (mixed keys, reshaped result slices, nil elements, malformed member/first member); a malformed stream (85% damaged); the key-state product of every entity type (3L states per key path of L segments; strided sample above the cap) incl. the key-shape types enumerated by go/harness/c20/shapes.go (nested component first / middle / last, several nested, 3-4 segment paths, several @keys mixing flat and nested sets; single and batch); key-shape lists (exactly one key - each in turn -, every key, one member failing); every @requires field in turn unusable while the others are fine. Non-trivial = distinct (representations, plan) reaching a branch beyond the fault-free single-type path with an error or a plan entry",
         "input_distribution": dict(st["dist"]),
         "variants": st["per_variant"],
         "correspondence_divergences": len(st["divs"]),
